@@ -264,6 +264,78 @@ func runC18(c *an.Ctx) {
 		}
 		c.MinCount("R4", "hand-overs of body bytes to the delegate writer", nDel, 2)
 	}
+	// the response rules see every response: no entry point of the interceptor (exported methods, the response
+	// processor closure) hands a status to the delegate writer unless the response-header phase has run, i.e. unless
+	// (*rwInterceptor).WriteHeader was called on the path or the path is one on which wroteHeader is already set
+	// (wroteHeader has one writer, WriteHeader, storing true).  A handler that returns without writing anything
+	// otherwise gets net/http's implicit 200 without phase 3 and 4 ever being evaluated.
+	if wh := c.P.Func("http.(*rwInterceptor).WriteHeader"); wh != nil && c.P.Func("http.(*rwInterceptor).flushWriteHeader") != nil {
+		whoMayWrite(c, "R4", "http", "rwInterceptor", "wroteHeader", []storeRule{{fn: "http.(*rwInterceptor).WriteHeader", check: storesConst("true"), why: "set by WriteHeader, which runs the response-header phase"}})
+		flushes := func(f *ssa.Function) bool {
+			if f == nil || relPkg(f) != "http" || f == wh {
+				return false
+			}
+			if f.Name() == "flushWriteHeader" {
+				return true
+			}
+			r := false
+			an.Instrs(f, func(y ssa.Instruction) {
+				if yc := an.CallOf(y); yc != nil && yc.StaticCallee() != nil && yc.StaticCallee().Name() == "flushWriteHeader" {
+					r = true
+				}
+			})
+			return r
+		}
+		nEntry := 0
+		for _, fn := range c.P.ModFuncs {
+			if relPkg(fn) != "http" || fn == wh || !flushes(fn) || fn.Name() == "flushWriteHeader" {
+				continue
+			}
+			entry := false
+			if fn.Parent() != nil && fn.Parent().Name() == "wrap" {
+				entry = true
+			}
+			if fn.Signature.Recv() != nil && token.IsExported(fn.Name()) && strings.Contains(fn.Signature.Recv().Type().String(), "rwInterceptor") {
+				entry = true
+			}
+			if !entry {
+				continue
+			}
+			nEntry++
+			c.FuncsAnalysed[fn] = true
+			w := an.FindPath(an.PathQuery{Fn: fn,
+				Stop: func(x ssa.Instruction) bool { return an.IsCallTo(x, wh) },
+				Target: func(x ssa.Instruction) bool {
+					xc := an.CallOf(x)
+					return xc != nil && xc.StaticCallee() != nil && flushes(xc.StaticCallee())
+				},
+				PruneEdge: func(b *ssa.BasicBlock, succ int) bool {
+					iff, ok := b.Instrs[len(b.Instrs)-1].(*ssa.If)
+					if !ok {
+						return false
+					}
+					cond, neg := iff.Cond, false
+					if u, ok := cond.(*ssa.UnOp); ok && u.Op == token.NOT {
+						cond, neg = u.X, true
+					}
+					if !strings.HasSuffix(tempName.ReplaceAllString(an.Expr(cond), ""), ".wroteHeader") {
+						return false
+					}
+					// the successor on which wroteHeader is true needs no further WriteHeader
+					if neg {
+						return succ == 1
+					}
+					return succ == 0
+				}})
+			key := "status reaches the delegate only after the response-header phase in " + shortFn(an.RelName(fn))
+			if w != nil {
+				c.Bad("R4", key, w.Target.Pos(), "the recorded status is flushed to the delegate writer on a path on which neither WriteHeader was called nor wroteHeader is known to be set: ProcessResponseHeaders never ran for this response (a handler that returns without writing gets the implicit 200 with no phase 3/4 rule evaluated and no relevant-status audit decision)", c.P.TrailString(w)...)
+			} else {
+				c.Ok("R4", key, fn.Pos(), "every path to a status flush calls WriteHeader or is one on which wroteHeader is set")
+			}
+		}
+		c.MinCount("R4", "interceptor entry points that can flush the status", nEntry, 2)
+	}
 	// a response interrupted in a response phase declares an empty body before its status is flushed: the first
 	// Write of a handler that never called WriteHeader runs phase 3 from inside Write, after the interruption test
 	// at the top of Write, and goes on to hand its bytes to the delegate — only the declared Content-Length: 0 makes
